@@ -2,5 +2,6 @@ fn main() {
     // std resolves `getrandom` through dlsym at run time; the harness' own definition is only
     // found if it is in the executable's dynamic symbol table.
     println!("cargo:rustc-link-arg-bin=simhist=-Wl,--export-dynamic-symbol=getrandom");
+    println!("cargo:rustc-link-arg-bin=simhist=-Wl,--export-dynamic-symbol=clock_gettime");
     println!("cargo:rerun-if-changed=build.rs");
 }
